@@ -660,17 +660,84 @@ func (l *Loop) neutralise() {
 		if sortCall == nil {
 			continue
 		}
+		// the sort may sit behind `if len(s) > 1`: with at most one element
+		// there is no order to fix
+		guard, lenCall, cmp := sortGuard(sortCall, phi)
 		ok = true
 		for _, o := range others {
-			if !ssau.Dominates(sortCall, o) {
-				ok = false
+			if ssau.Dominates(sortCall, o) {
+				continue
 			}
+			if guard != nil {
+				if o == ssa.Instruction(lenCall) {
+					continue
+				}
+				if ssau.Dominates(guard, o) && !sortCall.Block().Dominates(o.Block()) {
+					continue
+				}
+			}
+			ok = false
 		}
+		_ = cmp
 		if ok {
 			e.Neutralised = true
 			e.How = "the slice is sorted by " + ssau.CallName(sortCall) + " (a total order on its elements) before any other use"
+			if guard != nil {
+				e.How += ", unless it has at most one element"
+			}
 		}
 	}
+}
+
+// sortGuard: the sort is the then-branch of `if len(s) > 1` (or >= 2, or the
+// mirrored spellings) on the same slice; returns the If, the len call and the
+// comparison.
+func sortGuard(sortCall *ssa.Call, s ssa.Value) (*ssa.If, *ssa.Call, *ssa.BinOp) {
+	b := sortCall.Block()
+	if len(b.Preds) != 1 {
+		return nil, nil, nil
+	}
+	p := b.Preds[0]
+	if len(p.Instrs) == 0 || len(p.Succs) != 2 || p.Succs[0] != b {
+		return nil, nil, nil
+	}
+	iff, ok := p.Instrs[len(p.Instrs)-1].(*ssa.If)
+	if !ok {
+		return nil, nil, nil
+	}
+	cmp, ok := iff.Cond.(*ssa.BinOp)
+	if !ok {
+		return nil, nil, nil
+	}
+	isLen := func(v ssa.Value) *ssa.Call {
+		c, ok := v.(*ssa.Call)
+		if !ok {
+			return nil
+		}
+		bi, ok := c.Call.Value.(*ssa.Builtin)
+		if !ok || bi.Name() != "len" || len(c.Call.Args) != 1 || c.Call.Args[0] != s {
+			return nil
+		}
+		return c
+	}
+	konst := func(v ssa.Value) (int64, bool) {
+		k, ok := v.(*ssa.Const)
+		if !ok || k.Value == nil {
+			return 0, false
+		}
+		return k.Int64(), true
+	}
+	if lc := isLen(cmp.X); lc != nil {
+		if k, ok := konst(cmp.Y); ok && ((cmp.Op == token.GTR && k <= 1 && k >= 0) || (cmp.Op == token.GEQ && k <= 2 && k >= 0)) {
+			return iff, lc, cmp
+		}
+	}
+	if lc := isLen(cmp.Y); lc != nil {
+		if k, ok := konst(cmp.X); ok && ((cmp.Op == token.LSS && k <= 1 && k >= 0) || (cmp.Op == token.LEQ && k <= 2 && k >= 0)) {
+			return iff, lc, cmp
+		}
+	}
+	return nil, nil, nil
 }
 
 // TotalSortOfBasic: a sort of a slice of strings/ints/floats by their natural
